@@ -554,10 +554,36 @@ def e10d(ctx: Ctx):
         line=comps[0].lineno,
         witness="" if ok else "10 DIM A(3):READ A(1),B:DATA ,5",
     )
-    oki = unparse(g.iter).endswith(".rhs_list")
-    ctx.ob("read-targets:all", oki, "" if oki else f"the selection runs over `{unparse(g.iter)}`, not over all targets of the READ", file=VISITORS_REL, line=comps[0].lineno)
+    it_ = resolve_alias(rd, g.iter)
+    oki = unparse(it_).endswith(".rhs_list")
+    ctx.ob("read-targets:all", oki, "" if oki else f"the selection runs over `{unparse(it_)}`, not over all targets of the READ", file=VISITORS_REL, line=comps[0].lineno)
     # the DATA side is unconditional on the item's class: both kinds of non-string item are rewritten
     tests = [n for n in ast.walk(dt) if isinstance(n, ast.If)]
     outer = next((t for t in tests if "isinstance" in unparse(t.test) and "literal" in unparse(t.test) and "str" in unparse(t.test)), None)
     okd = outer is not None and bool(outer.body) and all(any(isinstance(x, (ast.Assign,)) for x in ast.walk(s_)) for s_ in outer.body)
     ctx.ob("data-items:all-rewritten", okd, "" if okd else "visit_data_statement no longer rewrites every non-string DATA item", file=VISITORS_REL, line=dt.lineno)
+    # ... in every DATA statement: the switch is per program (one empty item anywhere turns every numeric READ into a
+    # filtered string READ), so no DATA statement may be left as it is because of what *it* contains
+    loops = [n for n in dt.body if isinstance(n, ast.For)] or [n for n in ast.walk(dt) if isinstance(n, ast.For)]
+    if loops:
+        lp = loops[0]
+        par = dt.args.args[1].arg if len(dt.args.args) > 1 else None
+        early = [n for n in ast.walk(dt) if isinstance(n, (ast.Return, ast.Raise)) and n.lineno < lp.lineno]
+        guards = []
+        parents_ = {id(c): p_ for p_ in ast.walk(dt) for c in ast.iter_child_nodes(p_)}
+        g_ = parents_.get(id(lp))
+        while g_ is not None and g_ is not dt:
+            if isinstance(g_, ast.If) and par in names_loaded(g_.test):
+                guards.append(g_)
+            g_ = parents_.get(id(g_))
+        oke = not early and not guards
+        what = f"returns early at line {early[0].lineno}" if early else (f"rewrites only when `{unparse(guards[0].test)}`" if guards else "")
+        ctx.ob(
+            "data-items:every-statement",
+            oke,
+            "" if oke else f"visit_data_statement {what}: a DATA statement that is left numeric is still read through string temporaries and the run-time filter (the READ side is switched per program), so its numbers never arrive",
+            file=VISITORS_REL,
+            line=(early[0].lineno if early else guards[0].lineno) if not oke else dt.lineno,
+            witness="" if oke else "10 READ A,B$,C / 20 DATA 1,,3 / 30 READ D / 40 DATA 4.5",
+            props=["C20", "C03"],
+        )
